@@ -300,7 +300,7 @@ def check_model_case(rec, backend="numpy", remove_unused=(False, True), workdir=
         ctx = {**ctx0, "remove_unused": ru}
         try:
             mod = make_mod(backend, ode, scheme_order(schemes, text + str(ru)), workdir=workdir, remove_unused=ru, delta=delta,
-                           stiff_states=list(stiff))
+                           stiff_states=list(stiff) + ["p", "no_such_state", "t", "dt"] + [f"d{n}_dt" for n in snames] + list(stiff))
         except Exception as ex:  # noqa: BLE001
             bad.append({"tag": "generate", "exception": type(ex).__name__, "message": str(ex)[:300], **ctx})
             continue
